@@ -21,6 +21,7 @@ mod civ;
 mod tzcorpus;
 mod tzd;
 mod tzread;
+mod val;
 mod zd;
 
 use common::Args;
@@ -66,6 +67,7 @@ fn dispatch(driver: &str, a: &Args) {
         "c02" => c02::run(&a),
         "c03" => tzd::run_c03(&a),
         "c07" => civ::run_c07(&a),
+        "c12" => val::run(&a),
         "c19replay" => c19::run_replay(&a),
         "c20" => c20::run(&a),
         "c20fixed" => c20::run_fixed(&a),
